@@ -59,6 +59,9 @@ fn main() {
             rep.inconclusive(format!("monitor panicked outside the repository code: {msg}"));
         }
     }
+    if let Some(p) = args.get("as-prop") {
+        rep.relabel(p);
+    }
     rep.write(&out);
     // let pool threads of the last history finish terminating before exit-time leak checks run
     std::thread::sleep(std::time::Duration::from_millis(60));
